@@ -77,7 +77,7 @@ impl<'a> Fz<'a> {
         };
         let (st, out) = Self::st(catch_unwind(AssertUnwindSafe(|| {
             let mut i = new_issuer("K1", "ES256");
-            i.issue_sd_jwt(claims, strat, if kind % 2 == 0 { crate::keys::jwk("H1") } else { None }, kind % 3 == 0, fmt.lib())
+            i.issue_sd_jwt(claims, strat, if kind != 1 { crate::keys::jwk("H1") } else { None }, kind % 3 == 0, fmt.lib())
         })));
         self.end("issuer.issue", fmt.name(), &arg, st);
         out
@@ -188,6 +188,16 @@ pub fn run(ctx: &mut Ctx, out_path: &str, n: usize, seed: u64) {
         let claims = rclaims(&mut r, &tree, now());
         for v in wrong_types() {
             f.issue(v, None, r.gen_range(0..3), Fmt::Compact);
+        }
+        // registered / library-interpreted top-level names with every wrong JSON type, with a holder key bound
+        for name in ["cnf", "iss", "exp", "iat", "nbf", "sub", "aud", "_sd_alg"] {
+            for v in wrong_types() {
+                let mut c = json!({"iss": "i", "exp": 4000000000u64, "a": 1});
+                c[name] = v;
+                for kind in [0u8, 2, 3] {
+                    f.issue(c.clone(), Some(vec!["$.a".to_string()]), kind, Fmt::Json);
+                }
+            }
         }
         let mut deep = json!("bottom");
         for i in 0..64 {
